@@ -90,6 +90,10 @@ type MutantResult struct {
 }
 
 // RunMutant checks one mutant: the property check must report a violation (expect fail) or stay green (expect pass).
+// CarefulPass: must-stay-green mutants are checked with the normal limits (not the fast ones), so that solver load
+// cannot turn them into false "not as expected" reports.
+var CarefulPass = false
+
 func RunMutant(m Mutant, repo, verif string) MutantResult {
 	res := MutantResult{Mutant: m}
 	var overlay map[string][]byte
@@ -114,7 +118,7 @@ func RunMutant(m Mutant, repo, verif string) MutantResult {
 		overlay = map[string][]byte{path: []byte(strings.Replace(string(src), m.Find, m.Replace, 1))}
 	}
 	rep, err := RunCheck(CheckOpts{Prop: m.Prop, Tier: "quick", RepoDir: repo, VerifDir: verif, Overlay: overlay,
-		NoEvid: true, Fast: true, OutDir: filepath.Join(verif, "out", "selftest", m.ID)})
+		NoEvid: true, Fast: !(CarefulPass && m.Expect == "pass"), OutDir: filepath.Join(verif, "out", "selftest", m.ID)})
 	if err != nil {
 		res.Detail = "check error: " + err.Error()
 		return res
